@@ -135,8 +135,9 @@ fn judge_quad(kind: usize, iw: u32, ih: u32, q: [u32; 4], stats: &mut Stats, vio
         }
         Err(e) => {
             stats.count("rejected", 1);
-            // a box of no pixels: the property does not say whether it "lies inside"; either outcome is accepted
-            if want && !zero_area {
+            // an empty box inside the image (or on its right/bottom edge) lies inside it and must be accepted too
+            let _ = zero_area;
+            if want {
                 viols.push(Viol::new("rejected_region_inside_image", format!("{} on {}x{} rejected {:?} with {}", CROP_KINDS[kind], iw, ih, q, e)).sig(sig));
             }
         }
